@@ -510,9 +510,9 @@ def run_ident(spec, res):
                 inside = lambda ip: any(ip[:len(p)] == p for p in sel)
                 # a duplicate is within reach of the partial run when the element that declares the constraint is an
                 # ancestor-or-self of... the selected elements or lies below them, and both holders are in the part
-                must = sorted((r, ip) for (r, ip), (kind, first, later) in zip(sorted(full, key=lambda x: x[1]),
-                                                                            sorted(dups, key=lambda x: x[2]))
-                              if inside(first) and inside(later))
+                # (a holder can carry two seeded duplicates: each is paired with the reported error of its own constraint)
+                must = sorted((r, ip) for kind, first, later in dups for r, ip in full
+                              if ip == later and f":{kind}'" in r and inside(first) and inside(later))
                 may = sorted((r, ip) for r, ip in full if inside(ip))
                 for mode in ('full', 'lazy_thin', 'lazy_kept'):
                     lazy = mode != 'full'
